@@ -230,7 +230,7 @@ def make_record(spec, cls=None):
         if f["parts"] is None:
             loc = None       # a feature without a location (Biopython allows it; rotation must leave it alone)
         else:
-            parts = [FeatureLocation(a, b, strand) for a, b, strand in f["parts"]]
+            parts = [FeatureLocation(p[0], p[1], p[2], ref=p[3] if len(p) > 3 else None, ref_db=p[4] if len(p) > 4 else None) for p in f["parts"]]
             loc = parts[0] if len(parts) == 1 else CompoundLocation(parts)
         feats.append(SeqFeature(loc, type=f["type"], qualifiers={k: list(v) for k, v in f.get("quals", {}).items()}))
     ann = dict(spec.get("annotations", {}))
